@@ -246,7 +246,7 @@ impl Prop for C02 {
                 (Res::Ok { value, unit, unit_text }, true) => {
                     let si = match units::si_of(value, unit, false) {
                         Ok(si) => si,
-                        Err(e) => return fw::fail("unit-table", format!("{q}: {e}")),
+                        Err(e) => return crate::units::table_verdict(format!("{q}: {e}")),
                     };
                     let want = &x * &ma.scale;
                     if si.value != want || si.dim != ma.dim {
@@ -295,7 +295,7 @@ impl Prop for C02 {
                     };
                     let si = match units::si_of(value, gu, false) {
                         Ok(si) => si,
-                        Err(e) => return fw::fail("unit-table", format!("{q}: {e}")),
+                        Err(e) => return crate::units::table_verdict(format!("{q}: {e}")),
                     };
                     let (ws, wd) = match &want_unit {
                         None => (val.clone(), tables::DIM0),
@@ -337,7 +337,7 @@ impl Prop for C02 {
                         format!("{}:{}", case.fam, if si.dim == m.dim { "value" } else { "unit-not-adopted" }),
                         format!("{q}: the plain number must adopt [{}]; expected SI {} [{}], got {} (displayed {})", qs, want, tables::dim_text(&m.dim), si.short(), got.short()),
                     ),
-                    Err(e) => fw::fail("unit-table", format!("{q}: {e}")),
+                    Err(e) => crate::units::table_verdict(format!("{q}: {e}")),
                 },
                 Res::Err { msg, .. } => fw::fail(format!("{}:error", case.fam), format!("{q}: a plain number combined with a quantity must succeed, got error: {msg}")),
             };
@@ -354,7 +354,7 @@ impl Prop for C02 {
             (Res::Ok { value, unit, unit_text }, true) => {
                 let si = match units::si_of(value, unit, false) {
                     Ok(si) => si,
-                    Err(e) => return fw::fail("unit-table", format!("{q}: {e}")),
+                    Err(e) => return crate::units::table_verdict(format!("{q}: {e}")),
                 };
                 let coef = |k: &str, d: i64| int(case.data.get(k).and_then(|v| v.as_i64()).unwrap_or(d));
                 let want = match op {
